@@ -16,6 +16,7 @@ import (
 	"fmt"
 	"net"
 	"os"
+	"runtime/debug"
 	"sort"
 	"strings"
 	"sync"
@@ -70,7 +71,15 @@ func setup() *Env {
 		panic(err)
 	}
 	lis := bufconn.Listen(1024 * 1024)
-	server := grpc.NewServer()
+	// a panic inside the mock service is the service failing, not the datasource
+	server := grpc.NewServer(grpc.UnaryInterceptor(func(ctx context.Context, req any, _ *grpc.UnaryServerInfo, h grpc.UnaryHandler) (resp any, err error) {
+		defer func() {
+			if r := recover(); r != nil {
+				err = fmt.Errorf("mock service panic: %v", r)
+			}
+		}()
+		return h(ctx, req)
+	}))
 	productv1.RegisterProductServiceServer(server, &grpctest.MockService{})
 	go func() { _ = server.Serve(lis) }()
 	conn, err := grpc.NewClient("passthrough:///bufnet",
@@ -268,6 +277,9 @@ func (e *Env) run(g *Gen, op *Op, memo *memoTransport) runResult {
 		defer func() {
 			if r := recover(); r != nil {
 				err = fmt.Errorf("panic: %v", r)
+				if os.Getenv("C20_STACK") != "" {
+					fmt.Fprintf(os.Stderr, "PANIC %v\n%s\n", r, debug.Stack())
+				}
 			}
 		}()
 		return ds.Load(context.Background(), nil, []byte(input))
@@ -483,6 +495,9 @@ func main() {
 		n := common.ArgInt(args, "n", 100)
 		out := common.NewOut(args["out"])
 		g := &Gen{S: env.schema, R: common.NewRand(seed)}
+		if forbid := os.Getenv("C20_FORBID"); forbid != "" {
+			g.ResolverOK = func(ctx string) bool { return !strings.ContainsAny(ctx, forbid) }
+		}
 		for i := 0; i < n; i++ {
 			grp := env.genGroup(g, st)
 			out.Line(env.runGroup(g, grp, st))
